@@ -346,7 +346,59 @@ func fieldName(t types.Type, idx int) string {
 	if s == nil || idx >= s.NumFields() {
 		return fmt.Sprintf("f%d", idx)
 	}
+	if n, ok := canonicalFieldNames[s.Field(idx)]; ok {
+		return n
+	}
 	return s.Field(idx).Name()
+}
+
+// canonicalFieldNames: an unexported field of a codec struct (packages packets,
+// packets1) that an exported getter returns is named after the getter, not
+// after its own (freely renameable) identifier: MessageID() -> "messageID",
+// DUP() -> "dup". The rules, the specification table and the known-finding keys
+// speak about the role of the field, so renaming it changes nothing. Filled by
+// loadRepo (per loaded configuration; the *types.Var keys are distinct).
+var canonicalFieldNames = map[*types.Var]string{}
+
+func getterCanonical(getter string) string {
+	if strings.ToUpper(getter) == getter {
+		return strings.ToLower(getter)
+	}
+	return strings.ToLower(getter[:1]) + getter[1:]
+}
+
+func (c *Ctx) fillCanonicalFieldNames() {
+	for _, rel := range []string{"packets", "packets1"} {
+		for _, f := range c.repoFuncs(rel) {
+			if f.Parent() != nil || f.Signature.Recv() == nil || f.Object() == nil || !f.Object().Exported() {
+				continue
+			}
+			if f.Signature.Params().Len() != 0 || f.Signature.Results().Len() != 1 || len(f.Blocks) != 1 {
+				continue
+			}
+			ret, ok := f.Blocks[0].Instrs[len(f.Blocks[0].Instrs)-1].(*ssa.Return)
+			if !ok || len(ret.Results) != 1 {
+				continue
+			}
+			u, ok := ret.Results[0].(*ssa.UnOp)
+			if !ok || u.Op != token.MUL {
+				continue
+			}
+			fa, ok := u.X.(*ssa.FieldAddr)
+			if !ok || fa.X != ssa.Value(f.Params[0]) {
+				continue
+			}
+			st := structOf(fa.X.Type())
+			if st == nil || fa.Field >= st.NumFields() {
+				continue
+			}
+			fv := st.Field(fa.Field)
+			if fv.Exported() {
+				continue
+			}
+			canonicalFieldNames[fv] = getterCanonical(f.Name())
+		}
+	}
 }
 
 // ---------------------------------------------------------------------------
